@@ -4,6 +4,8 @@ import RedisVerif.Model.SimHarness
 import RedisVerif.Lemmas.Sim
 import RedisVerif.Model.SimMore
 import RedisVerif.Lemmas.SimMore
+import RedisVerif.Model.SimMulti
+import RedisVerif.Model.SimBuggify
 
 /-!
 # C20 — Simulation is reproducible: same seed, same trace, same verdict
@@ -40,7 +42,7 @@ claimed here is different (DESIGN §4 C20):
 namespace RedisVerif
 namespace C20
 
-open SimRng SimKernel SimHarness SimLemmas SimMore SimMoreLemmas
+open SimRng SimKernel SimHarness SimLemmas SimMore SimMoreLemmas SimMulti SimBuggify SimFaultTable
 
 /-! ## T3 — the RNG wrappers -/
 
@@ -736,6 +738,419 @@ theorem result_stats_independent_of_earlier_runs : C20_result_stats_independent_
   fun _ _ _ => rfl
 
 example : finalizeStats false [(0, 31)] [(0, 31)] = [(0, 62)] ∧ finalizeStats true [(0, 31)] [(0, 31)] = [(0, 31)] := by decide
+
+
+/-! ## T5 — `MultiNodeSimulation` / `run_partition_test` (Model/SimMulti)
+
+The cluster simulation iterates a `HashMap` at two places that reach its output: the keys
+`get_keys_in_buckets` selects for an anti-entropy exchange (the receiver's Lamport clock advances
+once per delta, so their ORDER is observable) and the routing table of a selective gossip round
+(`send_deltas` draws loss and delay per target).  Both orders are explicit parameters of the model
+(`pi`, `rho`: any function that lists what it is given in some order). -/
+
+/-- `f` lists what it is given in some order -/
+def IsOrder (f : List Nat → List Nat) : Prop := ∀ l, (f l).Perm l
+
+theorem isOrder_id : IsOrder id := fun l => List.Perm.refl l
+theorem isOrder_reverse : IsOrder List.reverse := fun l => List.reverse_perm l
+
+/-- full strength: one anti-entropy exchange (`run_anti_entropy_sync`) leaves the same cluster state
+    whatever order the two `replicated_keys` maps are iterated in.  Parameter: the variant of
+    `get_keys_in_buckets` (`true` = current code: selected keys sorted, dc1be9d). -/
+def C20_mn_sync_independent_of_map_order (sorted : Bool) : Prop :=
+  ∀ (pi pi' : List Nat → List Nat), IsOrder pi → IsOrder pi' → ∀ (c : Cfg) (s : MN) (a b : Nat),
+    (MN.sync (selectKeys sorted pi c.perSync) c s a b).nodes = (MN.sync (selectKeys sorted pi' c.perSync) c s a b).nodes
+
+theorem selectKeys_sorted_order_independent (pi pi' : List Nat → List Nat) (h : IsOrder pi) (h' : IsOrder pi') (per : Nat) :
+    selectKeys true pi per = selectKeys true pi' per := by
+  funext inB m
+  unfold selectKeys
+  simp only [if_true]
+  rw [sortNat_perm_invariant _ _ (((h m.keys).trans (h' m.keys).symm).filter _)]
+
+theorem mn_sync_order_independent : C20_mn_sync_independent_of_map_order true := by
+  intro pi pi' h h' c s a b
+  rw [selectKeys_sorted_order_independent pi pi' h h']
+
+/-- a cluster state with a hand-built generator (never consulted by an anti-entropy exchange):
+    node 0 wrote two keys (stamps 1 and 2), node 1 knows nothing -/
+def mnTwoKeys : MN :=
+  { rng := rngConst 0,
+    nodes := [{ clock := 2, keys := [(0, ⟨some 1, 1, 1⟩), (1, ⟨some 2, 2, 1⟩)] }, {}] }
+
+def cfgTwo : Cfg := ⟨2, F64.ofBits 0, 1, 10, true, false, 100, 1000, #[(0x6b30, 3, []), (0x6b31, 200, [])]⟩
+
+/-- the pinned code: the receiver's Lamport clock is `max(local, remote) + 1` per delta, so the
+    order in which the sender's map yields the two keys is observable: 3 when the older stamp comes
+    first, 4 when the newer one does (was `C20:trace-differs-across-processes:multi-node:lamport-clock-after-anti-entropy`,
+    fixed: dc1be9d) -/
+theorem mn_sync_depends_on_map_order_counterexample : ¬ C20_mn_sync_independent_of_map_order false := by
+  intro h
+  have := congrArg (fun ns => ns.map (·.clock)) (h id List.reverse isOrder_id isOrder_reverse cfgTwo mnTwoKeys 0 1)
+  revert this
+  decide
+
+/-- non-vacuity of the sorted statement on the same data: both orders give clock 3, both keys cross -/
+example : ((MN.sync (selectKeys true List.reverse 1000) cfgTwo mnTwoKeys 0 1).nodes.map fun nd => (nd.clock, nd.keys.keys)) = [(2, [0, 1]), (3, [0, 1])] := by
+  decide
+
+/-- full strength: a selective gossip round leaves the same cluster state and the same messages in
+    flight whatever order the routing table is visited in.  Parameter: the variant of `gossip_round`
+    (`true` = current code: routes sorted by target, 7f8c4c6). -/
+def C20_mn_gossip_independent_of_route_order (sorted : Bool) : Prop :=
+  ∀ (rho rho' : List Nat → List Nat), IsOrder rho → IsOrder rho' → ∀ (c : Cfg) (s : MN),
+    (MN.gossipRound (routeOrder sorted rho) c s).queue.map (fun m => (m.src, m.dst, m.at_)) =
+    (MN.gossipRound (routeOrder sorted rho') c s).queue.map (fun m => (m.src, m.dst, m.at_))
+
+theorem routeOrder_sorted_order_independent (rho rho' : List Nat → List Nat) (h : IsOrder rho) (h' : IsOrder rho') :
+    routeOrder true rho = routeOrder true rho' := by
+  funext ts
+  unfold routeOrder
+  simp only [if_true]
+  rw [sortNat_perm_invariant _ _ ((h ts).trans (h' ts).symm)]
+
+theorem mn_gossip_route_order_independent : C20_mn_gossip_independent_of_route_order true := by
+  intro rho rho' h h' c s
+  rw [routeOrder_sorted_order_independent rho rho' h h']
+
+/-- generator buffer `0, 0, 7, 0, 0, …`: the 64-bit words are 0, 7, 0, 0, … -/
+def rngSecondSeven : Rng :=
+  { key := Vector.replicate 8 0, ctr := 0, buf := (Vector.replicate 64 0).set 2 7, idx := 0 }
+
+/-- three nodes, selective routing; node 0 has one pending delta of a key owned by nodes 1 and 2 -/
+def mnRoutes : MN :=
+  { rng := rngSecondSeven,
+    nodes := [{ clock := 1, keys := [(0, ⟨some 1, 1, 1⟩)], pending := [(0, ⟨some 1, 1, 1⟩)] }, {}, {}] }
+
+def cfgRoutes : Cfg := ⟨3, F64.ofBits 0, 1, 10, true, true, 100, 1000, #[(0x6b30, 3, [1, 2])]⟩
+
+set_option maxRecDepth 8000 in
+/-- the pinned code: `send_deltas` draws the delay per target in the order the routing table yields
+    them — the FIRST target visited gets the second word of the stream (delay 8), the other one the
+    fourth (delay 1): which message is delivered when depends on the map order (was
+    `C20:trace-differs-across-processes:multi-node:routing-table-order-in-gossip-round`, fixed: 7f8c4c6) -/
+theorem mn_gossip_depends_on_route_order_counterexample : ¬ C20_mn_gossip_independent_of_route_order false := by
+  intro h
+  have := h id List.reverse isOrder_id isOrder_reverse cfgRoutes mnRoutes
+  revert this
+  decide
+
+set_option maxRecDepth 8000 in
+/-- non-vacuity of the sorted statement on the same data: target 1 is served first whatever the map says -/
+example : (MN.gossipRound (routeOrder true List.reverse) cfgRoutes mnRoutes).queue.map (fun m => (m.src, m.dst, m.at_)) = [(0, 1, 8), (0, 2, 1)] := by
+  decide
+
+/-- full strength, whole run: the trace of a cluster scenario — every scripted step's reply, Lamport
+    clocks, pending queues, in-flight messages, the closing lines with winners, stamps and verdicts —
+    is the same for any two iteration orders of the replica maps and any two visiting orders of the
+    routing tables; any seed, configuration, script (also the scripts of `run_partition_test`).
+    Parameters: the variants of `get_keys_in_buckets` and `gossip_round` (`true true` = current code). -/
+def C20_mn_run_independent_of_map_orders (sortsSync sortsRoutes : Bool) : Prop :=
+  ∀ (pi pi' rho rho' : List Nat → List Nat), IsOrder pi → IsOrder pi' → IsOrder rho → IsOrder rho' →
+    ∀ (c : Cfg) (style seed : Nat) (script : List Op) (fin : List Nat) (during after : Nat),
+      runWith sortsSync sortsRoutes pi rho c style seed script fin during after =
+      runWith sortsSync sortsRoutes pi' rho' c style seed script fin during after
+
+theorem mn_run_order_independent : C20_mn_run_independent_of_map_orders true true := by
+  intro pi pi' rho rho' h h' g g' c style seed script fin during after
+  unfold runWith
+  rw [selectKeys_sorted_order_independent pi pi' h h', routeOrder_sorted_order_independent rho rho' g g']
+
+/-- `run_partition_test` collects its test keys into a `HashSet` and asks `all(check_key_convergence)`:
+    the verdict of a convergence round does not depend on the order the set is visited in -/
+theorem partition_test_keys_order_independent (s : MN) (keys keys' : List Nat) (h : keys.Perm keys') :
+    keys.all s.keyConverged = keys'.all s.keyConverged := by
+  induction h with
+  | nil => rfl
+  | cons x _ ih => simp only [List.all_cons, ih]
+  | swap x y l => simp only [List.all_cons]; cases s.keyConverged x <;> cases s.keyConverged y <;> rfl
+  | trans _ _ ih1 ih2 => exact ih1.trans ih2
+
+/-- the receiver's clock after a batch of deltas: the pinned defect in one line -/
+example : (({} : Node).applyAll [(0, ⟨some 1, 1, 1⟩), (1, ⟨some 2, 2, 1⟩)]).clock = 3 ∧
+    (({} : Node).applyAll [(1, ⟨some 2, 2, 1⟩), (0, ⟨some 1, 1, 1⟩)]).clock = 4 := by decide
+
+/-- `ReplicatedValue::merge` keeps the larger stamp, ties (same time, same replica: the same write) keep the local one -/
+theorem rv_merge_table (v w : Option Nat) :
+    RV.merge ⟨v, 5, 1⟩ ⟨w, 6, 1⟩ = ⟨w, 6, 1⟩ ∧ RV.merge ⟨v, 6, 1⟩ ⟨w, 5, 2⟩ = ⟨v, 6, 1⟩ ∧
+    RV.merge ⟨v, 5, 1⟩ ⟨w, 5, 2⟩ = ⟨w, 5, 2⟩ ∧ RV.merge ⟨v, 5, 2⟩ ⟨w, 5, 2⟩ = ⟨v, 5, 2⟩ := by
+  simp [RV.merge, stampGt]
+
+/-- `enforce_pending_capacity` keeps the NEWEST `cap` deltas -/
+theorem cap_pending_keeps_newest (cap : Nat) (p : List Delta) :
+    (capPending cap p).length = min cap p.length ∧ (capPending cap p) <:+ p := by
+  unfold capPending
+  refine ⟨by simp only [List.length_drop]; omega, List.drop_suffix _ _⟩
+
+example : capPending 2 [(0, ⟨some 1, 1, 1⟩), (1, ⟨some 2, 2, 1⟩), (2, ⟨some 3, 3, 1⟩)] = [(1, ⟨some 2, 2, 1⟩), (2, ⟨some 3, 3, 1⟩)] := by decide
+
+
+/-! ## T6 — the BUGGIFY layer (`src/buggify/*`, Model/SimBuggify): every fault decision is a function of (seed, call index)
+
+A Lean function of `(context, calls, generator)` is deterministic by construction; what is proved
+is WHICH parts of its arguments a decision can depend on — so that the hidden state of the real
+code (the thread-local statistics, the `HashMap`s of the configuration and of the counters, the
+position in the stream) is accounted for:
+
+* the decisions and the generator do not depend on the check / trigger counters the thread carries
+  (`fault_decisions_independent_of_stats`);
+* the number of words a call sequence consumes is a function of the configuration / suppression
+  history alone (`fault_stream_position`): the `i`-th decision reads the word at position
+  `pos + drawCount(prefix)` — "(seed, call index)" made explicit;
+* the whole fault table derived from the source: for every fault of `ALL_FAULTS` under every preset
+  the probability `get` returns (exact f64 product) and the exact number of the 10^6 draw values
+  that trigger (`preset_get_table`, `preset_threshold_table`). -/
+
+/-- the catalogue generated from `faults.rs`: 40 ids -/
+theorem fault_catalogue_size : allFaults.length = 40 := by decide
+
+/-- settings of a context: everything but the counters -/
+def sameSettings (a b : Ctx) : Prop := a.cfg = b.cfg ∧ a.suppressed = b.suppressed
+
+/-- what a call sequence returns to its caller and leaves in the generator -/
+def visible {σ} (r : Except String (List Bool × Ctx × σ)) : Except String (List Bool × σ) :=
+  match r with
+  | .ok (ds, _, g) => .ok (ds, g)
+  | .error e => .error e
+
+theorem call_sameSettings {σ} (S : Sampler σ) (a b : Ctx) (h : sameSettings a b) (c : Call) (g : σ) :
+    (∃ e, a.call S c g = .error e ∧ b.call S c g = .error e) ∨
+    (∃ d a' b' g', a.call S c g = .ok (d, a', g') ∧ b.call S c g = .ok (d, b', g') ∧ sameSettings a' b') := by
+  obtain ⟨hc, hs⟩ := h
+  cases c with
+  | check id =>
+    simp only [Ctx.call, hc, hs]
+    by_cases hsup : b.suppressed
+    · simp only [hsup, if_true]; exact .inr ⟨_, _, _, _, rfl, rfl, ⟨rfl, rfl⟩⟩
+    · simp only [hsup]
+      by_cases hn : noChance (F64.ofBits (b.cfg.get id))
+      · simp only [hn, if_true]; exact .inr ⟨_, _, _, _, rfl, rfl, ⟨rfl, rfl⟩⟩
+      · simp only [hn]
+        cases hr : S.range 0 1000000 g with
+        | error e => exact .inl ⟨e, rfl, rfl⟩
+        | ok vg =>
+          exact .inr ⟨_, _, _, _, rfl, rfl, ⟨rfl, rfl⟩⟩
+  | checkProb id bits =>
+    simp only [Ctx.call, hc, hs]
+    by_cases hsup : (b.suppressed || !b.cfg.enabled)
+    · simp only [hsup, if_true]; exact .inr ⟨_, _, _, _, rfl, rfl, ⟨rfl, rfl⟩⟩
+    · simp only [hsup]
+      cases hr : S.range 0 1000000 g with
+      | error e => exact .inl ⟨e, rfl, rfl⟩
+      | ok vg =>
+        exact .inr ⟨_, _, _, _, rfl, rfl, ⟨rfl, rfl⟩⟩
+  | suppress x => exact .inr ⟨_, _, _, _, rfl, rfl, ⟨hc, rfl⟩⟩
+  | setConfig cfg => exact .inr ⟨_, _, _, _, rfl, rfl, ⟨rfl, hs⟩⟩
+  | resetStats => exact .inr ⟨_, _, _, _, rfl, rfl, ⟨hc, hs⟩⟩
+
+/-- full strength: the decisions a call sequence returns and the state it leaves the generator in
+    are the same whatever check / trigger counters the thread carried before (the counters are the
+    part of `BUGGIFY_CONTEXT` no harness resets): any generator, any calls, any configuration -/
+def C20_fault_decisions_independent_of_stats : Prop :=
+  ∀ (σ : Type) (S : Sampler σ) (a b : Ctx), sameSettings a b → ∀ (calls : List Call) (g : σ),
+    visible (runCalls S a calls g) = visible (runCalls S b calls g)
+
+theorem fault_decisions_independent_of_stats : C20_fault_decisions_independent_of_stats := by
+  intro σ S a b h calls
+  induction calls generalizing a b with
+  | nil => intro g; rfl
+  | cons c rest ih =>
+    intro g
+    rcases call_sameSettings S a b h c g with ⟨e, ha, hb⟩ | ⟨d, a', b', g', ha, hb, h'⟩
+    · simp only [runCalls, ha, hb, bind, Except.bind, visible]
+    · have := ih a' b' h' g'
+      simp only [runCalls, ha, hb, bind, Except.bind]
+      cases hra : runCalls S a' rest g' with
+      | error e =>
+        cases hrb : runCalls S b' rest g' with
+        | error e' => rw [hra, hrb] at this; simpa [visible] using this
+        | ok r => rw [hra, hrb] at this; simp [visible] at this
+      | ok ra =>
+        cases hrb : runCalls S b' rest g' with
+        | error e' => rw [hra, hrb] at this; simp [visible] at this
+        | ok rb =>
+          rw [hra, hrb] at this
+          obtain ⟨dsa, ca, ga⟩ := ra
+          obtain ⟨dsb, cb, gb⟩ := rb
+          simp only [visible, Except.ok.injEq, Prod.mk.injEq] at this
+          simp only [visible, pure, Except.pure, this.1, this.2]
+
+/-- non-vacuity: two contexts that differ in their counters only, a sequence with decisions that draw
+    (chaos: network.packet_drop triggers for the draw 150000 — `0.05 * 3.0` is `0.15000000000000002`) -/
+example : sameSettings { cfg := .chaos, checks := [(0, 31)] } { cfg := .chaos } ∧
+    (visible (runCalls streamSampler { cfg := .chaos, checks := [(0, 31)] } [.check 0, .checkProb 6 bits_1_0] (fun _ => 150000, 0))).toOption.map (·.1) =
+      some [true, true] := by
+  refine ⟨⟨rfl, rfl⟩, ?_⟩
+  decide
+
+/-- full strength: over a stream of words, a call sequence started at position `pos` ends at
+    `pos + drawCount …`, where `drawCount` looks at the configuration / suppression history only —
+    never at a drawn value, a decision or a counter.  The `i`-th decision therefore reads the word at
+    a position that is a function of the calls before it: (seed, call index) determines it. -/
+def C20_fault_stream_position : Prop :=
+  ∀ (ctx : Ctx) (calls : List Call) (f : Nat → Nat) (pos : Nat),
+    ∃ ds ctx', runCalls streamSampler ctx calls (f, pos) = .ok (ds, ctx', (f, pos + drawCount ctx.cfg ctx.suppressed calls))
+
+theorem call_stream (ctx : Ctx) (c : Call) (f : Nat → Nat) (pos : Nat) :
+    ∃ d ctx', ctx.call streamSampler c (f, pos) = .ok (d, ctx', (f, pos + (if c.draws ctx.cfg ctx.suppressed then 1 else 0))) ∧
+      ctx'.cfg = (match c with | .setConfig c' => c' | _ => ctx.cfg) ∧
+      ctx'.suppressed = (match c with | .suppress b => b | _ => ctx.suppressed) := by
+  cases c with
+  | check id =>
+    by_cases hsup : ctx.suppressed = true
+    · simp [Ctx.call, Call.draws, hsup, pure, Except.pure]
+      exact ⟨_, _, ⟨rfl, rfl⟩, rfl, rfl⟩
+    · by_cases hn : noChance (F64.ofBits (ctx.cfg.get id)) = true
+      · simp [Ctx.call, Call.draws, hsup, hn, pure, Except.pure]
+        exact ⟨_, _, ⟨rfl, rfl⟩, rfl, rfl⟩
+      · simp [Ctx.call, Call.draws, hsup, hn, streamSampler, bind, Except.bind, pure, Except.pure]
+        exact ⟨_, _, ⟨rfl, rfl⟩, rfl, rfl⟩
+  | checkProb id bits =>
+    by_cases hsup : ctx.suppressed = true
+    · simp [Ctx.call, Call.draws, hsup, pure, Except.pure]
+      exact ⟨_, _, ⟨rfl, rfl⟩, rfl, rfl⟩
+    · by_cases hen : ctx.cfg.enabled = true
+      · simp [Ctx.call, Call.draws, hsup, hen, streamSampler, bind, Except.bind, pure, Except.pure]
+        exact ⟨_, _, ⟨rfl, rfl⟩, rfl, rfl⟩
+      · simp [Ctx.call, Call.draws, hsup, hen, pure, Except.pure]
+        exact ⟨_, _, ⟨rfl, rfl⟩, rfl, rfl⟩
+  | suppress x => exact ⟨_, _, rfl, rfl, rfl⟩
+  | setConfig cfg => exact ⟨_, _, rfl, rfl, rfl⟩
+  | resetStats => exact ⟨_, _, rfl, rfl, rfl⟩
+
+theorem fault_stream_position : C20_fault_stream_position := by
+  intro ctx calls
+  induction calls generalizing ctx with
+  | nil => intro f pos; exact ⟨[], ctx, rfl⟩
+  | cons c rest ih =>
+    intro f pos
+    obtain ⟨d, ctx', hc, hcfg, hsup⟩ := call_stream ctx c f pos
+    obtain ⟨ds, ctx'', hr⟩ := ih ctx' f (pos + (if c.draws ctx.cfg ctx.suppressed then 1 else 0))
+    refine ⟨d.toList ++ ds, ctx'', ?_⟩
+    have hpos : pos + (if c.draws ctx.cfg ctx.suppressed then 1 else 0) + drawCount ctx'.cfg ctx'.suppressed rest =
+        pos + drawCount ctx.cfg ctx.suppressed (c :: rest) := by
+      rw [hcfg, hsup]
+      cases c <;> simp only [drawCount] <;> omega
+    simp only [runCalls, hc, hr, bind, Except.bind, pure, Except.pure, hpos]
+    cases d <;> rfl
+
+/-- non-vacuity, and the formula at work: under `chaos` the suppressed call and the unconfigured
+    fault (object_store.put_fail: probability 0) consume nothing; three words for five calls -/
+example : drawCount FaultCfg.chaos false [.check 0, .suppress true, .check 0, .suppress false, .check 26, .checkProb 26 0, .check 6] = 3 := by
+  decide
+
+
+/-! ### the whole fault table, derived from the source (`Model/SimFaultTable.lean` is generated from
+`faults.rs` / `config.rs`; the real objects are compared with it on every run) -/
+
+/-- the first draw value that does NOT trigger (bisection over `[0, 10^6]`) -/
+def thresholdSearch (p : F64) : Nat → Nat → Nat → Nat
+  | 0, lo, _ => lo
+  | f + 1, lo, hi =>
+    if lo ≥ hi then lo
+    else
+      let mid := (lo + hi) / 2
+      if buggifyTriggered mid p then thresholdSearch p f (mid + 1) hi else thresholdSearch p f lo mid
+
+def thresholdOf (bits : Nat) : Nat := thresholdSearch (F64.ofBits bits) 21 0 1000000
+
+/-- `T` is a threshold of the decision at its two ends: the value just below triggers, `T` itself
+    does not, and 0 triggers iff anything does -/
+def thresholdOk (bits : Nat) : Bool :=
+  let p := F64.ofBits bits
+  let t := thresholdOf bits
+  (t == 0 || buggifyTriggered (t - 1) p) && (t == 1000000 || !buggifyTriggered t p) && (buggifyTriggered 0 p == (t != 0))
+
+/-- full strength: the decision is an exact threshold on the draw — for EVERY draw value -/
+def C20_buggify_decision_is_threshold (bits : Nat) : Prop :=
+  ∀ r, r < 1000000 → (buggifyTriggered r (F64.ofBits bits) = true ↔ r < thresholdOf bits)
+
+/-- `FaultConfig::get` for every fault of the catalogue under the three presets: the exact f64
+    product `base * global_multiplier`, clamped.  (chaos: `0.05 * 3.0` is `0.15000000000000002`, not `0.15`.) -/
+theorem preset_get_table :
+    (List.range 40).map FaultCfg.calm.get =
+      [4547007122018943789, 0, 0, 0, 0, 0, 4562254508917369340, 0, 4547007122018943789, 4547007122018943789, 0, 0, 0, 0, 0, 0,
+       0, 0, 0, 0, 0, 0, 0, 0, 0, 0, 0, 0, 0, 0, 0, 0, 0, 0, 0, 0, 0, 0, 0, 0] ∧
+    (List.range 40).map FaultCfg.moderate.get =
+      [4576918229304087675, 4562254508917369340, 4572414629676717179, 4581421828931458171, 4572414629676717179,
+       4576918229304087675, 4587366580439587226, 4572414629676717179, 4576918229304087675, 4576918229304087675,
+       4576918229304087675, 4572414629676717179, 4562254508917369340, 4557750909289998844, 4562254508917369340,
+       4576918229304087675, 4581421828931458171, 4547007122018943789, 4576918229304087675, 4562254508917369340,
+       4562254508917369340, 4547007122018943789, 4581421828931458171, 4557750909289998844, 4562254508917369340,
+       4547007122018943789, 0, 0, 0, 0, 0, 0, 0, 0, 0, 4581421828931458171, 4587366580439587226, 4562254508917369340,
+       4547007122018943789, 4576918229304087675] ∧
+    (List.range 40).map FaultCfg.chaos.get =
+      [4594572339843380020, 4584304132692975288, 4588807732320345784, 4599075939470750516, 4588807732320345784,
+       4594572339843380020, 4601778099247172812, 4588807732320345784, 4594572339843380020, 4594572339843380020,
+       4594572339843380020, 4588807732320345784, 4584304132692975288, 4579800533065604792, 4579800533065604792,
+       4594572339843380020, 4599075939470750516, 4569063951553953530, 4594572339843380020, 4579800533065604792,
+       4579800533065604792, 4569063951553953530, 4599075939470750516, 4573567551181324026, 4579800533065604792,
+       4569063951553953530, 0, 0, 0, 0, 0, 0, 0, 0, 0, 4599075939470750516, 4601778099247172812, 4579800533065604792,
+       4569063951553953530, 4594572339843380020] ∧
+    (List.range 40).map FaultCfg.disabled.get = List.replicate 40 0 ∧
+    (List.range 40).map FaultCfg.new.get = List.replicate 40 0 := by
+  decide
+
+set_option maxRecDepth 20000 in
+/-- … and, for every fault under every preset, how many of the 10^6 draw values trigger it
+    (`_partial`: the two ends of the threshold are checked, `C20_buggify_decision_is_threshold` is the
+    full statement — it needs the monotonicity of the correctly rounded quotient `r / 10^6`, not
+    proved).  The object-store faults (indices 26–34) are in no preset: they never trigger and never
+    draw under `should_buggify`; the streaming stores consult them with an explicit probability. -/
+theorem preset_threshold_table_partial :
+    (List.range 40).map (fun i => thresholdOf (FaultCfg.calm.get i)) =
+      [100, 0, 0, 0, 0, 0, 1000, 0, 100, 100, 0, 0, 0, 0, 0, 0, 0, 0, 0, 0, 0, 0, 0, 0, 0, 0, 0, 0, 0, 0, 0, 0, 0, 0, 0, 0, 0, 0, 0, 0] ∧
+    (List.range 40).map (fun i => thresholdOf (FaultCfg.moderate.get i)) =
+      [10000, 1000, 5000, 20000, 5000, 10000, 50000, 5000, 10000, 10000, 10000, 5000, 1000, 500, 1000, 10000, 20000, 100,
+       10000, 1000, 1000, 100, 20000, 500, 1000, 100, 0, 0, 0, 0, 0, 0, 0, 0, 0, 20000, 50000, 1000, 100, 10000] ∧
+    (List.range 40).map (fun i => thresholdOf (FaultCfg.chaos.get i)) =
+      [150001, 30000, 60000, 300001, 60000, 150001, 450000, 60000, 150001, 150001, 150001, 60000, 30000, 15000, 15000, 150001,
+       300001, 3000, 150001, 15000, 15000, 3000, 300001, 6000, 15000, 3000, 0, 0, 0, 0, 0, 0, 0, 0, 0, 300001, 450000, 15000,
+       3000, 150001] ∧
+    ((List.range 40).all fun i => thresholdOk (FaultCfg.calm.get i) && thresholdOk (FaultCfg.moderate.get i) && thresholdOk (FaultCfg.chaos.get i)) = true := by
+  decide
+
+/-- the convenience macros: `buggify_rarely!` 0.001, `buggify_sometimes!` 0.05, `buggify_often!` 0.20 -/
+theorem buggify_macro_thresholds :
+    thresholdOf 0x3F50624DD2F1A9FC = 1000 ∧ thresholdOf 0x3FA999999999999A = 50000 ∧ thresholdOf 0x3FC999999999999A = 200000 ∧
+    thresholdOk 0x3F50624DD2F1A9FC = true ∧ thresholdOk 0x3FA999999999999A = true ∧ thresholdOk 0x3FC999999999999A = true := by
+  decide
+
+/-- what `get` returns is NaN or lies in `[0, 1]` — whatever base probability and multiplier: the
+    clamp is the last step -/
+theorem fault_get_in_unit_interval (c : FaultCfg) (id : Nat) :
+    (F64.ofBits (c.get id)).isNaN = true ∨
+    (f64Lt (F64.ofBits (c.get id)) (F64.ofBits 0) = false ∧ f64Lt (F64.ofBits SimBuggify.bits_1_0) (F64.ofBits (c.get id)) = false) := by
+  unfold FaultCfg.get
+  split
+  · right; decide
+  · generalize f64Mul _ _ = b
+    unfold clampBits
+    simp only
+    split
+    · left; decide
+    · split
+      · right; decide
+      · split
+        · right; decide
+        · right; constructor <;> simp_all
+
+/-- `set` stores the clamped probability; out-of-range and special values, concretely -/
+theorem fault_set_clamps :
+    clampBits 0x3FF8000000000000 = SimBuggify.bits_1_0 ∧ clampBits 0xBFD0000000000000 = 0 ∧ clampBits 0x7FF0000000000000 = SimBuggify.bits_1_0 ∧
+    clampBits 0xFFF0000000000000 = 0 ∧ clampBits 0x8000000000000000 = 0x8000000000000000 ∧ clampBits bitsNaN = bitsNaN ∧
+    maxZeroBits bitsNaN = 0 ∧ maxZeroBits 0xBFF0000000000000 = 0 ∧ maxZeroBits 0x4008000000000000 = 0x4008000000000000 := by
+  decide
+
+/-- the exact product at the corners: a subnormal result, an overflow, `0 * inf` -/
+theorem f64_mul_table :
+    f64Mul (F64.ofBits 0x3F50624DD2F1A9FC) (F64.ofBits 0x3FB999999999999A) = 0x3F1A36E2EB1C432D ∧
+    f64Mul (F64.ofBits 0x3FA999999999999A) (F64.ofBits 0x4008000000000000) = 0x3FC3333333333334 ∧
+    f64Mul (F64.ofBits 1) (F64.ofBits 0x3FE0000000000000) = 0 ∧
+    f64Mul (F64.ofBits 3) (F64.ofBits 0x3FE0000000000000) = 2 ∧
+    f64Mul (F64.ofBits 0x7FEFFFFFFFFFFFFF) (F64.ofBits 0x4000000000000000) = bitsInf ∧
+    f64Mul (F64.ofBits 0) (F64.ofBits bitsInf) = bitsNaN := by
+  decide
 
 end C20
 end RedisVerif
